@@ -26,13 +26,26 @@ def probes_on(model, r, names, stats, report):
                 buf = io.StringIO()
                 with contextlib.redirect_stdout(buf):
                     try:
+                        store_end = arc.in_port if direction == "pull" else arc.out_port
+                        plain = kind in ("Arc", "PullArc", "PushArc", "SewerArc", "WeirArc")
+                        watch = plain and type(store_end).__qualname__ in STORE_CLASSES
+                        s0 = MN.node_stock(store_end, names) if watch else None
+                        rec0 = MN.cvec(arc.vqip_in, names) if watch else None
                         if direction == "pull":
                             X = frac(arc.send_pull_check()["volume"])
                             y = r.choice([X / 2, X, X * 2 + 1, F(1, 3)])
                             if kind in ("QueueArc", "DecayArc", "AltQueueArc", "DecayArcAlt") and arc.queue:
                                 continue        # travel-time arcs are in the quantifier only when nothing is due
-                            got = frac(arc.send_pull_request({"volume": Ex(y)})["volume"])
+                            rep_v = arc.send_pull_request({"volume": Ex(y)})
+                            got = frac(rep_v["volume"])
                             want = min(y, X)
+                            if watch:
+                                lost = MN.vsub(s0, MN.node_stock(store_end, names))
+                                recd = MN.vsub(MN.cvec(arc.vqip_in, names), rec0)
+                                handed = MN.cvec(rep_v, names)
+                                if not (close_v(lost, recd) and close_v(recd, handed)):
+                                    report(f"pull of {y} over {kind} {src}->{dst}: the supplier's stores lost {MN.fmt(lost)}, the arc recorded "
+                                           f"{MN.fmt(recd)}, the requester was handed {MN.fmt(handed)}", (direction, kind, src, dst, "moved"), "C04")
                         else:
                             X = frac(arc.send_push_check()["volume"])
                             y = r.choice([X / 2, X, X * 2 + 1, F(1, 3)]) if X < 10 ** 12 else r.choice([F(1, 3), F(7), F(1000)])
@@ -45,10 +58,18 @@ def probes_on(model, r, names, stats, report):
                             if kind in ("QueueArc", "DecayArc", "AltQueueArc", "DecayArcAlt"):
                                 if arc.queue or y < EPS:
                                     continue
-                            got = frac(arc.send_push_request(offer)["volume"])
+                            rep_v = arc.send_push_request(offer)
+                            got = frac(rep_v["volume"])
                             want = max(y - X, 0)
+                            if watch:
+                                gained = MN.vsub(MN.node_stock(store_end, names), s0)
+                                recd = MN.vsub(MN.cvec(arc.vqip_in, names), rec0)
+                                gave = MN.vsub(MN.cvec(offer, names), MN.cvec(rep_v, names))
+                                if not (close_v(gained, recd) and close_v(recd, gave)):
+                                    report(f"push of {y} over {kind} {src}->{dst}: the sender gave up {MN.fmt(gave)}, the arc recorded "
+                                           f"{MN.fmt(recd)}, the receiver's stores gained {MN.fmt(gained)}", (direction, kind, src, dst, "moved"), "C04")
                     except Exception as ex:
-                        report(f"{direction} probe over {kind} {src}->{dst} raised {type(ex).__name__}: {ex}", (direction, kind, src, dst, "raised"))
+                        report(f"{direction} probe over {kind} {src}->{dst} raised {type(ex).__name__}: {ex}", (direction, kind, src, dst, "raised"), "C07")
                         continue
                 stats["probes"] += 1
                 key = f"{direction}:{src if direction == 'pull' else dst}"
@@ -63,25 +84,48 @@ def probes_on(model, r, names, stats, report):
                         # from upstream and the leaked part was not (fully) taken by groundwater: it is handed to the
                         # consumer on top of what was asked for
                         sig = sig + ("leak-bounced",)
-                    report(what, sig)
+                    report(what, sig, "C07")
+
+
+STORE_CLASSES = ("Reservoir", "Storage", "Groundwater", "QueueGroundwater")   # (by __qualname__: a RiverReservoir, which passes spill on, calls itself "Reservoir")
+# nodes whose answer comes out of / goes into their own stores
+
+
+def close_v(a, b):
+    return all(abs(x - y) <= DUST for x, y in zip(a, b))
 
 
 def run(rep, thorough, pid="C07"):
     n = 400 if thorough else 60
     stats = {"models": 0, "probes": 0, "by_class": {}, "violations": 0}
     seen = {}
-    for seed, size in net_check.gen_cases("net_C07_probe", n, 3):
+    stats["after_reinit"] = 0
+    for idx, (seed, size) in enumerate(net_check.gen_cases(f"net_{pid}_probe", n, 3)):
         r = random.Random(seed)
         cfg = NG.gen_model(random.Random(seed), ndates=3, size=size)
         mon, model, err, out = MN.run_cfg(cfg, "exact", pids=())
         if err or model is None:
             continue
+        if idx % 3 == 1:
+            # the state a check must reflect is the current one also after Model.reinit() and another run
+            try:
+                with contextlib.redirect_stdout(io.StringIO()):
+                    NG.set_pollutants(cfg["polset"])
+                    model.reinit()
+                    model.run(dates=model.dates, verbose=False)
+                stats["after_reinit"] += 1
+            except Exception as ex:
+                rep.notes.append(f"{pid} probes: run after Model.reinit() raised {type(ex).__name__}: {ex} (totality is C12)")
+                continue
+            finally:
+                NG.set_pollutants("default")
         NG.set_pollutants(cfg["polset"])
         names = MN._names()
         viols = []
 
-        def report(msg, sig):
-            viols.append((msg, sig))
+        def report(msg, sig, clause="C07"):
+            if clause == pid:
+                viols.append((msg, sig))
         # give the nodes a date for handlers that read data
         try:
             probes_on(model, r, names, stats, report)
